@@ -111,6 +111,13 @@ def landingSpec (mt : ModelType) (pre post : Cell) (result : Int) : Bool :=
     | .sei => post == { pre with s := pre.s - 1, e := addLast pre.e 1, te := pre.te + 1 }
   else post == pre
 
+/-- C05 at a spread step of the SEI model: whatever arrives, no host becomes infected during the
+    step, no mortality cohort changes, and only the youngest exposed cohort grows - by exactly the
+    susceptible hosts consumed. -/
+def arrivalsStayExposed (pre post : Cell) : Bool :=
+  decide (post.i = pre.i) && decide (post.mort = pre.mort) && decide (post.e.dropLast = pre.e.dropLast) &&
+  decide (post.te - pre.te = pre.s - post.s) && decide (sumL post.e - sumL pre.e = pre.s - post.s)
+
 /-- C12 lethal temperature at one cell: colder than the threshold -> all infected back to
     susceptible (mortality cohorts reduced by a valid draw), exposed untouched; otherwise unchanged. -/
 def lethalSpec (cold : Bool) (pre post : Cell) : Bool :=
